@@ -13,11 +13,17 @@ survive, garbage collection stays inside the tree.
 -/
 import GoUtils.Proofs.Rm
 import GoUtils.Generated.Rm
+import GoUtils.Generated.Excl
 import GoUtils.Verdict
 namespace GoUtils.Props.C04
 open GoUtils GoUtils.Rm
 
 theorem C04_facts_extracted : Generated.Rm.ok = true := by decide
+
+/-- the exclusion list handed to the removal is built from every non-blank pattern (shape of
+    NewExclusionRegexList in the current source; its semantics belong to C08) -/
+theorem C04_exclusion_list_in_source :
+    Generated.Excl.ok = true ∧ Generated.Excl.blankPatternsSkipped = true ∧ Generated.Excl.matchIsUnanchoredAny = true := by decide
 
 /-- a removal that returns has changed nothing outside the path it was given — for every
     configuration with the given link treatment (any exclusion set, deep or shallow) -/
